@@ -3,7 +3,7 @@
    SPEC = direct indexing / per-semantic input lists / the documented normalisations. *)
 From Coq Require Import List Bool ZArith NArith Lia.
 From PC Require Import Base.Atoms Base.Xml Base.Outcome Base.Py Model.LoadPrim Model.Namespace Model.LoadDoc
-                       Proofs.LoadPrim Proofs.LoadPrimViews Proofs.LoadPrimRefine Proofs.LoadDoc Proofs.LoadFlat Proofs.LoadGeom Proofs.LoadDocRefine.
+                       Proofs.LoadPrim Proofs.LoadPrimViews Proofs.LoadPrimRefine Proofs.LoadDoc Proofs.LoadFlat Proofs.LoadGeom Proofs.LoadDocRefine Proofs.LoadSkin.
 Import ListNotations.
 Local Open Scope nat_scope.
 
@@ -199,6 +199,19 @@ Theorem C05_asset_up_axis : forall o, up_axis_of o = spec_up_axis (text_of o).
 Proof. exact up_axis_spec. Qed.
 Print Assumptions C05_asset_up_axis.
 
+(* skins: the <v> stream is cut into one block of <vcount>[i] rows per vertex; what Skin exposes as
+   joint_index[i][j] / weight_index[i][j] is the direct reading  v[(vcount[0] + .. + vcount[i-1] + j) * nindices + offset] *)
+Theorem C05_skin_index_views : forall nind vc idx blocks off,
+  nind <> 0 -> off < nind -> skin_split nind vc idx = Ok blocks ->
+  length blocks = length vc /\
+  forall i j, i < length vc -> j < Z.to_nat (nth i vc 0%Z) ->
+    nth j (col off (nth i blocks [])) 0%Z = spec_skin_index nind off vc idx i j.
+Proof.
+  intros nind vc idx blocks off Hn Ho H. split; [apply (skin_split_spec _ _ _ _ Hn H)|].
+  now apply skin_index_views.
+Qed.
+Print Assumptions C05_skin_index_views.
+
 (* flat class loaders.  Cameras: x / y / znear / zfar as given, the aspect ratio dropped exactly when
    all three of x, y and aspect ratio are given, rejected (DaeMalformed) exactly when neither x nor y
    is given.  References (material -> effect, default scene -> visual scene, instance_* -> library
@@ -367,6 +380,15 @@ Proof.
     intros g srcs H S. vm_compute in H, S. injection H as <-. injection S as <-. reflexivity.
   - eexists. split; vm_compute; reflexivity.
 Qed.
+
+(* non-vacuity of C05_skin_index_views: three vertices with 2, 0 and 1 influences, (joint, weight) pairs *)
+Example C05_skin_example :
+  match skin_split 2 [2; 0; 1]%Z [5; 0; 6; 1; 7; 2]%Z with
+  | Ok blocks => map (col 0) blocks = [[5; 6]; []; [7]]%Z /\ map (col 1) blocks = [[0; 1]; []; [2]]%Z /\
+                 spec_skin_index 2 0 [2; 0; 1]%Z [5; 0; 6; 1; 7; 2]%Z 2 0 = 7%Z
+  | Raise _ => False
+  end.
+Proof. vm_compute. repeat split; reflexivity. Qed.
 
 (* a node without a name, holding all five transforms interleaved with a nested node, an
    instance_geometry with a bound material, an extra and an <asset> (skipped) *)
